@@ -24,6 +24,7 @@ def dispatch (cfg : Cfg) (b : Block) : String :=
   | "redefgen" => (runRedefGen b).line b.kind b.id "C09"
   | "convseq" => (runConvSeq b).line b.kind b.id "C10"
   | "hist" => (runHist cfg.fl b).line b.kind b.id ""
+  | "alias" => (runAlias b).line b.kind b.id "C08"
   | "redef" => (runRedef cfg.fl b).line b.kind b.id ""
   | "sig" => (runSig b).line b.kind b.id "C14"
   | "vset" => (runVset b).line b.kind b.id "C15"
